@@ -3,6 +3,7 @@ import AasVerif.Model.Expr.Eval
 import AasVerif.Model.SdkVerify
 import AasVerif.Model.PyEmit
 import AasVerif.Model.PyParse
+import AasVerif.Model.EvalOrder
 import AasVerif.Model.PyRules
 /-!
 Line protocol of C08.
@@ -13,6 +14,8 @@ Line protocol of C08.
                                 sequence (`PyEmit.print`) and what `PyEmit.parse` reads from it
                                 (`ok:<1 iff equal to strip>:<pyexpr>` | `outside` | `fail`)
     pyparse <tokens>          → `ok <pyexpr>` | `outside` | `fail` (`PyEmit.parse`)
+    trace  <world> <expr>     → the events of `Expr.trace`, each `kind|outcome of the operation`, space separated
+    emittrace <cfg> <world> <expr> → `same` when `PyExpr.trace` of the transpiled expression is `Expr.trace` of the source
 
 All structured arguments are comma-separated prefix token streams (no spaces):
 
@@ -404,6 +407,37 @@ def encReading (r : PyEmit.PR PyEmit.PyExpr) (want : Option PyEmit.PyExpr) : Str
   | .outside => "outside"
   | .fail => "fail"
 
+/-! ### evaluation order -/
+
+/-- names no identifier can have, for the operands of an event -/
+def tmpName (i : Nat) : Text := [0, i]
+
+/-- the outcome of the operation of an event, computed by the evaluator itself on the operand values -/
+def evOut (ρ : Env) : Ev → String
+  | .load _ o => "load|" ++ encOut o
+  | .loadFn f => "loadfn|" ++ (if calleeResolves ρ f then "ok" else "otherError")
+  | .getattr v n => "getattr|" ++ encOut (eval (ρ.bind (tmpName 0) v) (.member (.name (tmpName 0)) n))
+  | .index c i =>
+    "index|" ++ encOut (eval ((ρ.bind (tmpName 0) c).bind (tmpName 1) i) (.index (.name (tmpName 0)) (.name (tmpName 1))))
+  | .cmp op l r =>
+    "cmp|" ++ encOut (eval ((ρ.bind (tmpName 0) l).bind (tmpName 1) r) (.cmp (.name (tmpName 0)) op (.name (tmpName 1))))
+  | .isIn m c =>
+    "isin|" ++ encOut (eval ((ρ.bind (tmpName 0) m).bind (tmpName 1) c) (.isIn (.name (tmpName 0)) (.name (tmpName 1))))
+  | .arith add l r =>
+    let ρ' := (ρ.bind (tmpName 0) l).bind (tmpName 1) r
+    "arith|" ++ encOut (eval ρ' (if add then .add (.name (tmpName 0)) (.name (tmpName 1)) else .sub (.name (tmpName 0)) (.name (tmpName 1))))
+  | .call f args =>
+    let names := (List.range args.length).map tmpName
+    let ρ' : Env := { ρ with vars := (names.zip args).reverse ++ ρ.vars }
+    "call|" ++ encOut (eval ρ' (.funCall f (names.map .name)))
+  | .callMethod _ _ _ => "callmethod|-"
+  | .iter v => "iter|" ++ (match iterItems v with | some _ => "ok" | none => "typeError")
+  | .range a b => "range|" ++ (match rangeArg a, rangeArg b with | some _, some _ => "ok" | _, _ => "typeError")
+  | .fmt v => "fmt|" ++ encOut (fmtVal ρ v)
+
+def encTrace (ρ : Env) (evs : List Ev) : String :=
+  if evs.isEmpty then "-" else " ".intercalate (evs.map (evOut ρ))
+
 /-! ### parse rules -/
 open AasVerif.PyAst in
 def pCmpOp : String → Option PyCmpOp
@@ -500,6 +534,21 @@ def handle : List String → Option String
   | ["pyparse", ts] => do
     let ts ← decToks ts
     some (encReading (PyEmit.parse ts) none)
+  | ["trace", w, e] => do
+    let w ← decAll pWorld w
+    let e ← Expr.Wire.dec e
+    some (encTrace w.env (trace w.env e))
+  | ["emittrace", cfg, w, e] => do
+    let cfg ← decAll pCfg cfg
+    let w ← decAll pWorld w
+    let e ← Expr.Wire.dec e
+    match PyEmit.transpile cfg [] e with
+    | .ok x =>
+      let a := encTrace w.env (PyEmit.PyExpr.trace w.env x)
+      let b := encTrace w.env (trace w.env e)
+      some (if a == b then "same" else "differ " ++ a ++ " / " ++ b)
+    | .err => some "err"
+    | .crash => some "crash"
   | ["verify", w, v] => do
     let w ← decAll pWorld w
     let v ← decAll pVal v
